@@ -603,8 +603,14 @@ class SegmentationImage:
             numbers.
         """
         # child_labels are the deblended labels
+        deblend_label_map = {}
         for parent_label, child_labels in self._deblend_label_map.items():
-            self._deblend_label_map[parent_label] = relabel_map[child_labels]
+            new_labels = relabel_map[child_labels]
+            # drop child labels that were removed from the image
+            new_labels = new_labels[new_labels != 0]
+            if len(new_labels) > 0:
+                deblend_label_map[parent_label] = new_labels
+        self._deblend_label_map = deblend_label_map
 
     def reassign_label(self, label, new_label, relabel=False):
         """
